@@ -22,6 +22,11 @@ CLAIMS = {
     "C02": ("constant-table agreement + return-shape/guard rules on MIR",
             "Frame-length constants agree with the u16 prefix and snow's limits (read from the pinned snow source); plaintext reaches the caller's "
             "buffer only from decrypted data and a decryption error is returned on every path; write accounting and flush ordering hold on all paths.", "4/C02"),
+    "C03": ("guarded-by + return-shape rules on MIR",
+            "Necessary conditions of agreement/transparency only: the dialer completes only for a confirmation equal to its proposal, the "
+            "listener confirms only a requested-and-supported protocol and completes only after flushing it, the WebRTC dialer accepts only "
+            "proposed names, and the negotiated stream forwards reads/writes unchanged. First-common-name choice, termination, fragmentation "
+            "independence and interop are NOT decided.", "4/C03"),
     "C04": ("bounded-growth guards + sibling agreement on MIR",
             "Receiver allocations sized by a decoded length sit behind the codec's maximum; every transport arm of the senders refuses oversized "
             "payloads before writing; flush completeness return-shape rule.", "4/C04"),
@@ -75,9 +80,6 @@ CLAIMS = {
 }
 
 NA = {
-    "C03": "every clause quantifies over name lists, byte fragmentations and a foreign implementation (agreement on the first common "
-           "protocol, termination, transparency, interop); no structural necessary condition that is not a frozen source fragment - "
-           "static analysis in reach cannot decide it (DESIGN.md 4/C03); decoder totality of negotiation messages is covered under C19",
 }
 
 
